@@ -89,16 +89,31 @@ pub struct Run {
     pub flaky_on: bool,
 }
 
+/// percentages travel in units of 10^-7 (PDEN of the trace specification), fine enough to put
+/// weight * percentage a hair above an integer for the small weights used here
+pub const PDEN7: u64 = 10_000_000;
 fn threshold_of(t: &Value) -> Threshold {
+    let d = |k: &str| Decimal::from_ratio(n(t, k) as u128, PDEN7 as u128);
     match s(t, "kind").as_str() {
         "count" => Threshold::AbsoluteCount { weight: n(t, "weight") },
-        "pct" => Threshold::AbsolutePercentage { percentage: Decimal::permille(n(t, "p")) },
-        _ => Threshold::ThresholdQuorum { threshold: Decimal::permille(n(t, "p")), quorum: Decimal::permille(n(t, "q")) },
+        "pct" => Threshold::AbsolutePercentage { percentage: d("p") },
+        _ => Threshold::ThresholdQuorum { threshold: d("p"), quorum: d("q") },
     }
 }
 fn permille(d: &Decimal) -> i64 {
     let a = d.atomics().u128();
-    if a % 1_000_000_000_000_000 == 0 { (a / 1_000_000_000_000_000) as i64 } else { -9 }
+    let unit = 1_000_000_000_000_000_000u128 / PDEN7 as u128;
+    if a % unit == 0 { (a / unit) as i64 } else { -9 }
+}
+/// configurations give percentages in units of 1/pden (1000 when they come from the TLC models)
+fn thr_to_pden7(cfg: &Value) -> Value {
+    let pden = cfg.get("pden").and_then(|x| x.as_u64()).unwrap_or(1000);
+    let mut t = cfg["thr"].clone();
+    for k in ["p", "q"] {
+        let v = t[k].as_u64().unwrap_or(0);
+        t[k] = json!(v * (PDEN7 / pden));
+    }
+    t
 }
 fn thr_resp_to_model(t: &ThresholdResponse) -> Value {
     match t {
@@ -125,7 +140,11 @@ fn vote_name(v: &Vote) -> &'static str {
 }
 
 impl Run {
-    pub fn start(cfg: &Value, run_no: u64, out: &mut Out) -> Option<Run> {
+    pub fn start(cfg0: &Value, run_no: u64, out: &mut Out) -> Option<Run> {
+        let mut cfg1 = cfg0.clone();
+        cfg1["thr"] = thr_to_pden7(cfg0);
+        cfg1["pden"] = json!(PDEN7);
+        let cfg = &cfg1;
         let flex = s(cfg, "flavour") == "flex";
         let mut w = World::new();
         // the group and the tokens exist since an earlier block than the run's origin
@@ -293,6 +312,26 @@ impl Run {
 
     pub fn observe(&self) -> Value {
         let w = &self.w;
+        // what the two list queries report for every proposal (status, total), keyed by id
+        let mut listed: std::collections::BTreeMap<u64, (String, i64)> = Default::default();
+        let mut rlisted: std::collections::BTreeMap<u64, (String, i64)> = Default::default();
+        let st_name = |s: &Status| -> &'static str { match s { Status::Open => "open", Status::Passed => "passed", Status::Rejected => "rejected", Status::Executed => "executed", Status::Pending => "pending" } };
+        let mut cur: Option<u64> = None;
+        loop {
+            let r: Option<cw3::ProposalListResponse> = self.q(&self.ms, &cw3_fixed_multisig::msg::QueryMsg::ListProposals { start_after: cur, limit: Some(30) });
+            let Some(r) = r else { break };
+            if r.proposals.is_empty() { break; }
+            cur = Some(r.proposals.last().unwrap().id);
+            for p in r.proposals { listed.insert(p.id, (st_name(&p.status).to_string(), thr_resp_to_model(&p.threshold)["total"].as_i64().unwrap_or(-1))); }
+        }
+        let mut cur: Option<u64> = None;
+        loop {
+            let r: Option<cw3::ProposalListResponse> = self.q(&self.ms, &cw3_fixed_multisig::msg::QueryMsg::ReverseProposals { start_before: cur, limit: Some(30) });
+            let Some(r) = r else { break };
+            if r.proposals.is_empty() { break; }
+            cur = Some(r.proposals.last().unwrap().id);
+            for p in r.proposals { rlisted.insert(p.id, (st_name(&p.status).to_string(), thr_resp_to_model(&p.threshold)["total"].as_i64().unwrap_or(-1))); }
+        }
         let mut props = vec![];
         let mut id = 1u64;
         loop {
@@ -301,7 +340,7 @@ impl Run {
                 // either no such proposal, or the query itself fails: distinguish through ListVotes
                 let lv: Option<VoteListResponse> = self.q(&self.ms, &cw3_fixed_multisig::msg::QueryMsg::ListVotes { proposal_id: id, start_after: None, limit: Some(30) });
                 if lv.map(|l| !l.votes.is_empty()).unwrap_or(false) {
-                    props.push(json!({"id":id,"status":"error","expires":{"k":"never","v":0},"thr":{"kind":"count","weight":0,"p":0,"q":0,"total":0},
+                    props.push(json!({"id":id,"status":"error","lstatus":"error","rstatus":"error","ltotal":0,"rtotal":0,"expires":{"k":"never","v":0},"thr":{"kind":"count","weight":0,"p":0,"q":0,"total":0},
                         "proposer":"?","msgs":[],"title":"?","dep":{"kind":"none","amt":0,"refund":false},"votes":[],"snap":{"a1":-1,"a2":-1,"a3":-1},"start":0}));
                     id += 1;
                     continue;
@@ -345,7 +384,9 @@ impl Run {
                 };
                 snap.insert(u.to_string(), json!(wgt));
             }
-            props.push(json!({"id":p.id,"status":status,"expires":exp_to_model(&p.expires),"thr":thr_resp_to_model(&p.threshold),
+            let (ls, lt) = listed.get(&p.id).cloned().unwrap_or(("missing".into(), -1));
+            let (rs, rt) = rlisted.get(&p.id).cloned().unwrap_or(("missing".into(), -1));
+            props.push(json!({"id":p.id,"status":status,"lstatus":ls,"rstatus":rs,"ltotal":lt,"rtotal":rt,"expires":exp_to_model(&p.expires),"thr":thr_resp_to_model(&p.threshold),
                 "proposer": w.name_of(p.proposer.as_str()),"msgs":msgs,"title":p.title,"dep":depv,"votes":votes,"snap":Value::Object(snap),"start":start}));
             id += 1;
             if id > 40 {
@@ -516,8 +557,8 @@ fn rand_thr(rng: &mut Rng, total: u64) -> Value {
             let extra = if rng.chance(1, 10) { 1 } else { 0 };
             json!({"kind":"count","weight": rng.range(1, total.max(1) + extra),"p":0,"q":0})
         }
-        1 => json!({"kind":"pct","weight":0,"p": *rng.pick(&[500u64, 510, 667, 750, 1000]),"q":0}),
-        _ => json!({"kind":"quorum","weight":0,"p": *rng.pick(&[500u64, 510, 667, 1000]),"q": *rng.pick(&[1u64, 334, 500, 1000])}),
+        1 => json!({"kind":"pct","weight":0,"p": *rng.pick(&[5_000_000u64, 5_000_001, 5_100_000, 6_666_667, 6_670_000, 7_500_000, 10_000_000]),"q":0}),
+        _ => json!({"kind":"quorum","weight":0,"p": *rng.pick(&[5_000_000u64, 5_000_001, 5_100_000, 6_666_667, 10_000_000]),"q": *rng.pick(&[1u64, 10_000, 3_333_334, 3_340_000, 5_000_000, 10_000_000])}),
     }
 }
 
@@ -537,8 +578,12 @@ pub fn rand_cfg(rng: &mut Rng) -> Value {
         total = 1;
     }
     if rng.chance(1, 10) {
-        let d = voters[rng.below(voters.len() as u64) as usize].clone();
-        voters.push(d);
+        // a repeated address, with the same or another weight
+        let mut d = voters[rng.below(voters.len() as u64) as usize].clone();
+        if rng.chance(2, 3) {
+            d["w"] = json!(d["w"].as_u64().unwrap() + rng.range(1, 4));
+        }
+        if rng.chance(1, 2) { voters.push(d); } else { voters.insert(0, d); }
     }
     let period = if rng.chance(1, 2) { json!({"k":"h","v":rng.range(1, 4)}) } else { json!({"k":"t","v":10 * rng.range(1, 3)}) };
     let executor = if !flex { "none".to_string() } else { rng.pick(&["none", "none", "member", "a1", "a2"]).to_string() };
@@ -549,7 +594,7 @@ pub fn rand_cfg(rng: &mut Rng) -> Value {
             _ => json!({"kind":"cw20","amt":rng.range(1,4),"refund":rng.chance(2,3)}),
         }
     };
-    json!({"flavour": if flex {"flex"} else {"fixed"}, "voters":voters, "thr":rand_thr(rng, total), "period":period, "executor":executor, "dep":dep})
+    json!({"flavour": if flex {"flex"} else {"fixed"}, "voters":voters, "thr":rand_thr(rng, total), "pden":PDEN7, "period":period, "executor":executor, "dep":dep})
 }
 
 pub fn random_run(rng: &mut Rng, run_no: u64, len: usize, out: &mut Out) {
